@@ -465,7 +465,7 @@ uint16_t SimulateMsp430::get_data(
       }
         else
       {
-        return ram_read8(reg[ea]);
+        return ram_read8(ea);
       }
     }
 
